@@ -356,6 +356,50 @@ func c16Run(w *W) {
 			}
 		}
 	}
+	// a large tree: 12 files and 12 directories per level (names above a9 sort before a2), four levels deep
+	if w.Mine() {
+		root := filepath.Join(base, "big")
+		os.RemoveAll(root)
+		ok := true
+		mk := func(dir string) {
+			if os.MkdirAll(dir, 0o755) != nil {
+				ok = false
+			}
+			for i := 0; i < 12; i++ {
+				if os.WriteFile(filepath.Join(dir, fmt.Sprintf("a%d", i)), nil, 0o644) != nil {
+					ok = false
+				}
+			}
+			os.WriteFile(filepath.Join(dir, ".h"), nil, 0o644)
+		}
+		mk(root)
+		for i := 0; i < 12; i++ {
+			mk(filepath.Join(root, fmt.Sprintf("d%d", i)))
+		}
+		mk(filepath.Join(root, "d1", "d1"))
+		mk(filepath.Join(root, "d1", "d1", "d1"))
+		mk(filepath.Join(root, "d1", "d1", "d1", "d1"))
+		if ok && os.Chdir(root) == nil {
+			w.Count("states", 1)
+			w.Announce("large tree")
+			for _, p := range []string{"*", "a*", "a?", "a??", "a1*", "a1?", "a[0-9]", "a1[0-9]", "[ad]*", "d*", "d*/", "d*/a*", "d1/*", "*/*", "*/a1?", "*/*/*", "*/*/*/*", "*/*/*/*/*", "d1/d1/d1/d1/*", "d?/d?/d?/d?/a1*", "*/*/*/*/*/*",
+				"d1*/a2", "d[0-9]/.h", "*/.*", "@ROOT@/*", "@ROOT@/d1/*/a1?", "d1//d1///a*", "./d1/./a*", "d1/../a1*", "*1", "*1/", "*1/*1", "?1*"} {
+				w.Count("evaluations", 1)
+				w.Count("large_tree_patterns", 1)
+				d, nt, skipped := c16Judge(root, p)
+				if skipped {
+					continue
+				}
+				w.Count("traces_validated_against_impl", 1)
+				if nt {
+					w.Count("distinct_nontrivial", 1)
+				}
+				if d != "" {
+					w.Violation("", c16Case{[]c16Entry{{"large tree: 12 files a0…a11, .h and 12 directories d0…d11 per level, d1/d1/d1/d1 four levels deep", "dir"}}, p}, d)
+				}
+			}
+		}
+	}
 	os.Chdir("/")
 }
 
